@@ -801,6 +801,9 @@ func runHostile(in *hIn) (res string, value string, ops string, allocBytes uint6
 // famHostileChild: the worker.  HOSTILE_IN = input file, HOSTILE_OUT = result file (appended, one line per
 // input, written unbuffered so that it survives a fatal error), HOSTILE_FROM = first index, HOSTILE_SOLO=1: only that one.
 func famHostileChild(r *Rng, o *Out, tier string) {
+	// one P: sync.Pool (the msgpack library pools its decoders) is per P, so with several Ps what a call finds in
+	// the pool - and with it what it allocates - would depend on where the goroutine happens to be scheduled
+	runtime.GOMAXPROCS(1)
 	debug.SetMaxStack(64 << 20)
 	debug.SetMemoryLimit(3 << 30)
 	if v := os.Getenv("HOSTILE_AS"); v != "" {
@@ -2006,6 +2009,26 @@ func (g *hGen) oversize(big bool) {
 	}
 }
 
+// the same few bytes presented again and again: what ONE call allocates must not depend on what earlier calls
+// were fed (the msgpack library keeps decoders, and their internal read buffers, in a pool between calls)
+func (g *hGen) repeated() {
+	hdr := func(code byte, n uint64) []byte { return append([]byte{code}, bePut(4, n)...) }
+	ins := map[string][]byte{
+		"unreg.str": append([]byte{0x92, 0xce, 0x00, 0x01, 0x86, 0x9f}, hdr(0xdb, 1<<30)...),
+		"unreg.bin": append([]byte{0x92, 0xce, 0x00, 0x01, 0x86, 0x9f}, hdr(0xc6, 1<<32-2)...),
+		"body.bin":  append([]byte{0x92, 0x0c}, hdr(0xc6, 1<<31)...),
+	}
+	for _, name := range []string{"unreg.str", "unreg.bin", "body.bin"} {
+		for k := 0; k < 24; k++ {
+			g.add("cavs", fmt.Sprintf("oversize.repeat.%s.%02d", name, k), ins[name])
+		}
+	}
+	tok := append(append([]byte{0x94, 0x92}, hdr(0xc6, 1<<30)...))
+	for k := 0; k < 24; k++ {
+		g.add("mac", fmt.Sprintf("oversize.repeat.tok.kid.%02d", k), tok)
+	}
+}
+
 func (g *hGen) random(n int) {
 	r := g.r
 	for i := 0; i < n; i++ {
@@ -2214,6 +2237,7 @@ func famHostile(r *Rng, o *Out, tier string) {
 	g.deep(maxDepth)
 	g.deepKinds(tier == "thorough")
 	g.oversize(true)
+	g.repeated()
 	g.skeletons(1200 * scale)
 	g.unknown(500 * scale)
 	g.lenient(250 * scale)
